@@ -18,6 +18,10 @@
 #    is accepted.
 #  * real time: one clock unit of the model is a few seconds of real time; every replayed step is checked to have run
 #    inside the safe zone of its clock value, otherwise the path is re-run (never a verdict from wall-clock order).
+#  * concurrency: cleanup() runs on its own goroutine in the agent.  The model has an instance in which cleanup is two
+#    steps with commands handled in between; on the real Flooder a concurrent driver (commands delivered and replayed
+#    at once while cleanup() loops) is judged by the statement itself: no command is accepted twice.  A double
+#    acceptance is a violation; the absence of one in the sampled schedules is not a proof.
 import _sleepcmd as S
 
 
